@@ -95,3 +95,9 @@ func VerifC02NamespaceStore(mon Monitor) ([]string, bool) {
 	}
 	return res, true
 }
+
+// VerifC02Names / VerifC02Namespaces expose the configuration glue that decides how many resource
+// informers a monitor builds: MonitorConfig.names() and MonitorConfig.namespaces().
+func VerifC02Names(c *MonitorConfig) []string { return c.names() }
+
+func VerifC02Namespaces(c *MonitorConfig) []string { return c.namespaces() }
